@@ -14,9 +14,18 @@ inductive Endpoint where
   | issue | sign | verbatim
   deriving DecidableEq, Repr
 
+/-- one network of `allowed_ip_sans_cidr` as `net.ParseCIDR` stores it: address family, base address, prefix length -/
+structure CIDR where
+  v4 : Bool
+  base : Nat
+  plen : Nat
+  deriving Repr, DecidableEq
+
 structure Role where
   names : NameRole
   allowIPSANs : Bool
+  /-- `allowed_ip_sans_cidr`; empty = no restriction beyond `allow_ip_sans` -/
+  allowedIPCIDRs : List CIDR := []
   allowedURISANs : List Str
   keyType : String
   keyBits : Nat
@@ -170,6 +179,27 @@ def knownValidIPs : List String := ["1.2.3.4", "10.0.0.1", "127.0.0.1", "::1", "
 /-- … and refuses these -/
 def knownInvalidIPs : List String := ["999.1.1.1", "a.b.c.d", "1.2.3"]
 
+/-- numeric value of the addresses of the harness alphabet: (is IPv4, value) — what `net.IP.To4` / `To16` give -/
+def ipValue : String → Option (Bool × Nat)
+  | "1.2.3.4" => some (true, 0x01020304)
+  | "10.0.0.1" => some (true, 0x0a000001)
+  | "127.0.0.1" => some (true, 0x7f000001)
+  | "::1" => some (false, 1)
+  | "2001:db8::1" => some (false, 0x20010db8000000000000000000000001)
+  | _ => none
+
+/-- `net.IPNet.Contains`: same address family (an IPv4 address is never inside an IPv6 network and vice versa) and
+equal to the base under the mask -/
+def cidrContains (c : CIDR) (ip : Bool × Nat) : Bool :=
+  let w := if c.v4 then 32 else 128
+  c.v4 == ip.1 && (ip.2 >>> (w - c.plen)) == (c.base >>> (w - c.plen))
+
+/-- the `allowed_ip_sans_cidr` test on ONE address: inside at least one allowed network -/
+def ipAllowed (cidrs : List CIDR) (s : String) : Bool :=
+  match ipValue s with
+  | some v => cidrs.any (cidrContains · v)
+  | none => false
+
 /-! ### the synthetic role of sign-verbatim (`buildSignVerbatimRole`) -/
 
 def verbatimRole (req : Req) (role : Role) : Role :=
@@ -253,7 +283,11 @@ def buildIPs (role : Role) (req : Req) : Except String (List String) :=
     else .ok req.ipSans
   match parsed with
   | .error e => .error e
-  | .ok ips => if !ips.isEmpty && !role.allowIPSANs then .error "ip" else .ok ips
+  | .ok ips =>
+    if !ips.isEmpty && !role.allowIPSANs then .error "ip"
+    -- EVERY address is tested against the allowed networks (a fresh test per address)
+    else if !role.allowedIPCIDRs.isEmpty && ips.any (fun s => !ipAllowed role.allowedIPCIDRs s) then .error "ip-cidr"
+    else .ok ips
 
 /-- URI SANs (`validateURISAN` without identity templating) -/
 def buildURIs (role : Role) (req : Req) : Except String (List Str) :=
